@@ -42,7 +42,7 @@ ASSUMPTIONS = [
 SHARD_TIMEOUT = {"quick": 400, "thorough": 1700}
 NSHARDS = 16
 CALL_KINDS = ["sync", "sync", "coro", "coro_raise", "gated", "gated", "gated_cancel", "start_task",
-              "start_task_fail", "coro_native_cancel"]  # fmt: skip
+              "start_task_fail", "coro_native_cancel", "quick_cancel", "quick_cancel", "quick_cancel"]  # fmt: skip
 
 
 F14_KEY = "portal:call-racing-with-loop-shutdown-hangs"
@@ -96,7 +96,8 @@ def gen_case(rng: random.Random, cfg: str) -> dict:
         calls = []
         for _ in range(rng.randint(1, 8)):
             calls.append({"cid": cid, "kind": rng.choice(CALL_KINDS), "work": rng.randint(0, 3),
-                          "pause": rng.choice([0, 0, 0.0005, 0.001])})  # fmt: skip
+                          "pause": rng.choice([0, 0, 0.0005, 0.001]),
+                          "pause2": rng.choice([0, 0.0001, 0.0002, 0.0004, 0.0008])})  # fmt: skip
             cid += 1
 
         threads.append(calls)
@@ -235,6 +236,17 @@ def execute(case: dict) -> dict:
                 elif kind in ("gated", "gated_cancel"):
                     futures[cid] = portal.start_task_soon(gated_fn, cid, c["work"])
                     rec["future"] = True
+                elif kind == "quick_cancel":
+                    # a task that ends by itself after 0-3 checkpoints, its future cancelled
+                    # by the caller a moment later - now and then at the very instant at
+                    # which the portal is completing it
+                    f = portal.start_task_soon(coro_fn, cid, c["work"], False)
+                    futures[cid] = f
+                    rec["future"] = True
+                    time.sleep(c.get("pause2", 0))
+                    mon.ev("future_cancel", cid)
+                    if f.cancel():
+                        window("future_cancelled_around_task_completion")
                 elif kind == "start_task":
                     f, v = portal.start_task(gated_fn, cid, c["work"])
                     futures[cid] = f
@@ -550,7 +562,7 @@ def execute(case: dict) -> dict:
             elif how != "returned":
                 viol.append(("future-result-although-task-did-not-return", {"cid": cid, "how": how}))
 
-        if kind == "gated_cancel" and cancel_seq is not None:
+        if kind in ("gated_cancel", "quick_cancel") and cancel_seq is not None:
             nd = [e for e in mon.log if e[1] == "cancel_not_delivered" and e[2] == cid]
             if nd and nd[0][3] is True:
                 viol.append(("future-cancel-did-not-cancel-its-task", {"cid": cid}))
